@@ -38,6 +38,9 @@
 	&& T_DAY(utc, s) >= 1 && T_DAY(utc, s) <= T_DIM(T_MON(utc, s), (T_LEAP(T_YEAR(utc, s)) ? 1 : 0)) \
 	&& T_HOUR(utc, s) <= 23 && T_MIN(utc, s) <= 59 && T_SEC(utc, s) <= 59)
 #define T_VALUE(utc, s) T_TS(T_YEAR(utc, s), T_MON(utc, s), T_DAY(utc, s), T_HOUR(utc, s), T_MIN(utc, s), T_SEC(utc, s))
+/* the same value in two parts (day number, second of day): lets the proofs avoid comparing two 64-bit products */
+#define T_DAYNUM(utc, s) (T_DAYS_BEFORE_YEAR(T_YEAR(utc, s)) + T_CUM(T_MON(utc, s), (T_LEAP(T_YEAR(utc, s)) ? 1 : 0)) + (T_DAY(utc, s) - 1))
+#define T_SECS(utc, s)   (T_HOUR(utc, s) * 3600 + T_MIN(utc, s) * 60 + T_SEC(utc, s))
 /* first instant NOT representable: 2051-01-01 (UTCTime), 10000-01-01 (GeneralizedTime) */
 #define T_LIMIT(utc) (((utc) & 1) ? T_DAYS_BEFORE_YEAR(2051) * (int64_t)86400 : T_DAYS_BEFORE_YEAR(10000) * (int64_t)86400)
 
@@ -47,7 +50,7 @@ REQUIRES(RD_OK(str, T_LEN(utc_time)) && WR_OK(timestamp, sizeof(time_t)))
 ASSIGNS(*timestamp)
 ENSURES(RET == 1 || RET == -1)
 ENSURES((RET == 1) == T_WELLFORMED(utc_time, str))
-ENSURES(RET == 1 IMPLIES (int64_t)*timestamp == T_VALUE(utc_time, str))
+ENSURES(RET == 1 IMPLIES (int64_t)*timestamp == T_DAYNUM(utc_time, str) * (int64_t)86400 + T_SECS(utc_time, str))
 ;
 
 /* encoder: succeeds exactly on the representable range and writes the well-formed text of that instant */
@@ -56,6 +59,6 @@ REQUIRES(WR_OK(str, T_LEN(utc_time)))
 ASSIGNS(OBJ_UPTO((uint8_t *)str, (size_t)15 - 2 * ((size_t)utc_time & 1)))
 ENSURES(RET == 1 || RET == -1)
 ENSURES((RET == 1) == ((int64_t)timestamp >= 0 && (int64_t)timestamp < T_LIMIT(utc_time)))
-ENSURES(RET == 1 IMPLIES (T_WELLFORMED(utc_time, str) && T_VALUE(utc_time, str) == (int64_t)timestamp))
+ENSURES(RET == 1 IMPLIES (T_WELLFORMED(utc_time, str) && T_DAYNUM(utc_time, str) == (int64_t)timestamp / 86400 && T_SECS(utc_time, str) == (int64_t)timestamp % 86400))
 ;
 #endif
